@@ -37,13 +37,21 @@ type c15K struct {
 	stpF  string // chan field of Cache Stop closes / the cleaner selects on
 	runWG bool   // the join is a sync.WaitGroup field (Done on exit / Wait in Stop) instead of a channel
 	optsT string // "pkg.CacheOptions"
+	hax   string // package path of the map library ("" = c15Hax; fixtures use a stand-in)
 }
 
 func (k *c15K) fld(name string) string { return name }
 
+func (k *c15K) haxPath() string {
+	if k.hax != "" {
+		return k.hax
+	}
+	return c15Hax
+}
+
 func checkC15(c *Ctx) {
 	r := c.R
-	r.Explanation = "Decides structural necessary conditions of C15 on package ttlcache. Only the exported API, haxmap and time are name anchors; unexported fields, the entry type, helpers and the goroutine body are resolved by role among the state fields of Cache and of the package's struct types nested in it (the haxmap.Map field, possibly behind an interface boxed once; the type stored in it and its time.Time / value fields; the field with a Now() method, or a func() time.Time field bound once to it; the integer field NewCache fills from CacheOptions.MaxTTL; the done channel or sync.WaitGroup the goroutine started by NewCache signals and Stop waits on; the stop channel Stop closes and that goroutine selects on) and every rule follows calls into same-package helpers, bound methods, closures, func values with known targets (parameters, locals, fields stored once, elements of literal tables run by a counted loop) and interface calls whose implementation is known; flags, tuples and small enums returned by such helpers stay correlated with the caller's branches; a boolean state field stored once stands for the condition stored. (U1) every return of Get that can report ok=true is reached, on every path, only under `entry.exp > clock.Now()` (strict), entry being the result of that call's lookup on the map and Now() a reading of the cache's own clock taken during the call; (U2) every returning path of Set stores into the map; the stored expiry is, on every path, clock.Now().Add(T*time.Second) with Now() read from the cache clock during Set (an expiry taken from an existing entry is a violation); T is ttl only where maxTTL<=0 or ttl<=maxTTL is established and maxTTL only where maxTTL>0 and ttl>=maxTTL is; the stored value is Set's value parameter; NewCache wires CacheOptions.MaxTTL into the cap field; (U3) every key Cleanup hands to a delete is the key parameter of a ForEach callback over the map, committed on every path only under `clock.Now() >(=) exp` of that callback's own entry — the key slice must also be created EMPTY (a make with non-zero length hands n empty-string keys to the delete) and must not receive constant keys — (predicates passed as func values are evaluated in Cleanup's context); every delete the background goroutine can perform (through Cleanup or directly through the helpers Cleanup is made of, whatever the func value) satisfies the same expired-only condition, it performs no other mutation of the store, and none of it is started with `go`; (U4) every return of Stop is preceded by a wait for the done signal (receive on the done channel / WaitGroup.Wait); Stop closes the stop channel, not after waiting; the done signal is given only by the goroutine NewCache starts, on every exit, and is that goroutine's LAST action — no call (cleaning, or any other exit work such as a deferred ticker Stop registered before it) follows it, in the body, in the deferred calls or inside the helper that gives it; every wait of that goroutine is a select with a stop-channel case after which the wait is not reached again; the done signal is armed (make(chan) stored / WaitGroup.Add) before the goroutine starts and NewCache always starts it; (U5) Delete always deletes from the map; in Reset's context the ForEach callback commits every key on every feasible path and never stops the iteration, and the keys are deleted; (U6) the map is mutated only by the audited entry points and Get/Set/Delete pass their key unchanged. NOT decided: the history-level claim itself (rests on haxmap's semantics and the documented cleanup/refresh race); concurrency of Set/Get; ttl<=0 (outside the quantifier: NOTE only); overflow of ttl*time.Second; that the periodic cleaner actually runs Cleanup; a stop signal that is not a channel state field (context, polling), key slices filled by index, Unix()-style time comparisons, flags / func fields stored more than once and helper chains deeper than the inlining bound are UNDECIDED."
+	r.Explanation = "Decides structural necessary conditions of C15 on package ttlcache. Only the exported API, haxmap and time are name anchors; unexported fields, the entry type, helpers and the goroutine body are resolved by role among the state fields of Cache and of the package's struct types nested in it (the haxmap.Map field, possibly behind an interface boxed once; the type stored in it and its time.Time / value fields; the field with a Now() method, or a func() time.Time field bound once to it; the integer field NewCache fills from CacheOptions.MaxTTL; the done channel or sync.WaitGroup the goroutine started by NewCache signals and Stop waits on; the stop channel Stop closes and that goroutine selects on) and every rule follows calls into same-package helpers, bound methods, closures, func values with known targets (parameters, locals, fields stored once, elements of literal tables run by a counted loop) and interface calls whose implementation is known; flags, tuples and small enums returned by such helpers stay correlated with the caller's branches; a boolean state field stored once stands for the condition stored. (U1) every return of Get that can report ok=true is reached, on every path, only under `entry.exp > clock.Now()` (strict), entry being the result of that call's lookup on the map and Now() a reading of the cache's own clock taken during the call; (U2) every returning path of Set stores into the map; the stored expiry is, on every path, clock.Now().Add(T*time.Second) with Now() read from the cache clock during Set (an expiry taken from an existing entry is a violation); T is ttl only where maxTTL<=0 or ttl<=maxTTL is established and maxTTL only where maxTTL>0 and ttl>=maxTTL is; the stored value is Set's value parameter; NewCache wires CacheOptions.MaxTTL into the cap field; (U3) every key Cleanup hands to a delete is the key parameter of a ForEach callback over the map, committed on every path only under `clock.Now() >(=) exp` of that callback's own entry — the key slice must also START EMPTY in every run (a make with non-zero length hands n empty-string keys to the delete; a scratch buffer returned by one run and passed back un-truncated hands the earlier runs' keys to it again) and must not receive constant keys — (predicates passed as func values are evaluated in Cleanup's context); every delete the background goroutine can perform (through Cleanup or directly through the helpers Cleanup is made of, whatever the func value) satisfies the same expired-only condition, it performs no other mutation of the store, and none of it is started with `go`; (U4) every return of Stop is preceded by a wait for the done signal (receive on the done channel / WaitGroup.Wait); Stop closes the stop channel, not after waiting; the done signal is given only by the goroutine NewCache starts, on every exit, and is that goroutine's LAST action — no call (cleaning, or any other exit work such as a deferred ticker Stop registered before it) follows it, in the body, in the deferred calls or inside the helper that gives it; every wait of that goroutine is a select with a stop-channel case after which the wait is not reached again; the done signal is armed (make(chan) stored / WaitGroup.Add) before the goroutine starts and NewCache always starts it; (U5) Delete always deletes from the map; in Reset's context the ForEach callback commits every key on every feasible path and never stops the iteration, and the keys are deleted; (U6) the map is mutated only by the audited entry points and Get/Set/Delete pass their key unchanged. NOT decided: the history-level claim itself (rests on haxmap's semantics and the documented cleanup/refresh race); concurrency of Set/Get; ttl<=0 (outside the quantifier: NOTE only); overflow of ttl*time.Second; that the periodic cleaner actually runs Cleanup; a stop signal that is not a channel state field (context, polling), key slices filled by index, Unix()-style time comparisons, flags / func fields stored more than once and helper chains deeper than the inlining bound are UNDECIDED."
 	r.Assumptions = append(r.Assumptions,
 		"haxmap.Map Get/Set/Del/ForEach have their documented map semantics (ForEach stops when the callback returns false)",
 		"time.Time.After/Before/Equal/Compare/Sub/Add and clock.Now/Since have their documented meaning",
@@ -68,7 +76,7 @@ func checkC15(c *Ctx) {
 	r.Rule("C15.U5-delete", "every return of Delete is preceded by a delete from the map", 1)
 	r.Rule("C15.U5-reset", "Reset commits every key (callback never stops the iteration, commits on every feasible path) and deletes the committed keys", 1)
 	r.Rule("C15.U6-same-key", "Get, Set and Delete address the map with the key exactly as given (a transformed key at only some of them cannot be decided)", 3)
-	r.Rule("C15.U6-writers", "the map is mutated only through the audited entry points (Set in Set; Del in Delete/Cleanup/Reset)", 4)
+	r.Rule("C15.U6-writers", "the map is mutated only through the audited entry points (Set in Set; Del in Delete/Cleanup/Reset/the cleaner goroutine)", 4)
 
 	k := c15ResolveRoles(c)
 	k.checkGet()
@@ -79,6 +87,7 @@ func checkC15(c *Ctx) {
 	k.checkDeleteReset()
 	k.checkWriters()
 
+	c15SweepFixture(c)
 	c.Fixture("c15ttl", func(fp *Prog, fr *Report) {
 		fx := &c15X{p: fp, cfg: c15Cfg{CacheT: fp.ModPath + ".cache", EntryT: fp.ModPath + ".entry", ExpF: "exp",
 			ClockF: FieldID{fp.ModPath + ".cache", "clock"}.String(), MaxF: FieldID{fp.ModPath + ".cache", "maxTTL"}.String()},
@@ -105,6 +114,40 @@ func checkC15(c *Ctx) {
 			for _, o := range fr.Obs {
 				if o.Status == StViolation {
 					fmt.Println("FIXTURE:", o.Rule, o.Construct, o.Message, o.Witness)
+				}
+			}
+			for _, u := range fr.Undecided {
+				fmt.Println("FIXTURE-UNDECIDED:", u)
+			}
+		}
+	})
+}
+
+// c15SweepFixture runs the expired-only delete rule (U3) on the methods of the
+// c15sweep fixture whose name ends in Sweep.
+func c15SweepFixture(c *Ctx) {
+	c.Fixture("c15sweep", func(fp *Prog, fr *Report) {
+		cacheT := fp.ModPath + ".cache"
+		fk := &c15K{c: c, r: fr, p: fp, pkg: fp.ModPath, hax: fp.ModPath + "/hmap",
+			mapF: FieldID{cacheT, "m"}.String(),
+			x: &c15X{p: fp, cfg: c15Cfg{CacheT: cacheT, EntryT: fp.ModPath + ".entry", ExpF: "exp",
+				ClockF: FieldID{cacheT, "clock"}.String()}}}
+		for _, fn := range fp.Funcs {
+			if fn.Parent() != nil || fn.Signature.Recv() == nil || !strings.HasSuffix(fn.Name(), "Sweep") {
+				continue
+			}
+			ctx := fk.x.newCtx()
+			a := fk.analyseDeletes(ctx, fn, nil)
+			fk.expiredOnly(ctx, a, FuncName(fp, fn), c15Sink{
+				ok:    func(cn, pos, msg string) { fr.OK("sweep", cn, pos, msg) },
+				viol:  func(cn, pos, msg string, wit ...string) { fr.Violation("sweep", cn, pos, msg, wit...) },
+				undec: fr.Undecide,
+			})
+		}
+		if os.Getenv("C15_DEBUG") != "" {
+			for _, o := range fr.Obs {
+				if o.Status == StViolation {
+					fmt.Println("FIXTURE:", o.Rule, o.Construct, o.Message)
 				}
 			}
 			for _, u := range fr.Undecided {
@@ -663,7 +706,7 @@ func (k *c15K) mapMethod(in ssa.Instruction, env *c15Env) (string, *ssa.CallComm
 			return "", nil, false
 		}
 		o, isF := tg.Fn.Object().(*types.Func)
-		if !isF || o.Pkg() == nil || o.Pkg().Path() != c15Hax {
+		if !isF || o.Pkg() == nil || o.Pkg().Path() != k.haxPath() {
 			return "", nil, false
 		}
 		if _, _, id, ok := k.x.fieldRead(cc.Value, env); ok && k.x.cfg.hkey(id) == k.mapF {
@@ -693,7 +736,7 @@ func (k *c15K) mapMethod(in ssa.Instruction, env *c15Env) (string, *ssa.CallComm
 		args = append([]ssa.Value{ts[0].Bound[0]}, cc.Args...)
 		recvEnv = ts[0].BEnv
 	}
-	if obj == nil || obj.Pkg() == nil || obj.Pkg().Path() != c15Hax || len(args) == 0 {
+	if obj == nil || obj.Pkg() == nil || obj.Pkg().Path() != k.haxPath() || len(args) == 0 {
 		return "", nil, false
 	}
 	if sig, isSig := obj.Type().(*types.Signature); !isSig || sig.Recv() == nil {
@@ -1523,6 +1566,112 @@ func c15CellStores(a *ssa.Alloc) (stores []*ssa.Store, ok bool) {
 	return
 }
 
+// sliceStart classifies the contents a key-slice variable is given by an
+// assignment of v (evaluated in env): "empty" (nil, make with length 0, x[:0],
+// an empty literal), "zero" (made with a non-zero length), "carried" (the
+// contents of the key slice of another activation of the same code: a buffer
+// handed back in without being truncated), or "" with a reason.
+func (k *c15K) sliceStart(v ssa.Value, env *c15Env, cell *ssa.Alloc, seen map[ssa.Value]bool, depth int) (string, string) {
+	if depth > 6 {
+		return "", "too indirect"
+	}
+	sv, senv := k.x.strip(v, env)
+	if sv == nil {
+		return "", "no value"
+	}
+	switch t := sv.(type) {
+	case *ssa.Const:
+		if t.IsNil() {
+			return "empty", ""
+		}
+	case *ssa.MakeSlice:
+		if kc, ok := t.Len.(*ssa.Const); ok && kc.Value != nil && kc.Int64() == 0 {
+			return "empty", ""
+		}
+		return "zero", ""
+	case *ssa.Slice:
+		if hk, ok := t.High.(*ssa.Const); ok && hk.Value != nil && hk.Int64() == 0 {
+			return "empty", ""
+		}
+		if elems, ok := varargsElems(t); ok {
+			if len(elems) == 0 {
+				return "empty", ""
+			}
+			return "", "a slice literal with elements"
+		}
+		return k.sliceStart(t.X, senv, cell, seen, depth+1) // a reslice keeps (some of) the contents
+	case *ssa.Phi:
+		if seen[t] {
+			return "empty", "" // the loop-carried edge itself adds nothing new
+		}
+		seen[t] = true
+		res := "empty"
+		for _, e := range t.Edges {
+			kind, why := k.sliceStart(e, senv, cell, seen, depth+1)
+			switch kind {
+			case "":
+				return "", why
+			case "carried":
+				res = "carried"
+			case "zero":
+				if res == "empty" {
+					res = "zero"
+				}
+			}
+		}
+		return res, ""
+	case *ssa.UnOp:
+		if c2 := c15CellOf(t); c2 != nil {
+			if cell != nil && c2 == cell {
+				return "carried", "" // the same variable of another activation: its collected keys
+			}
+			stores, ok := c15CellStores(c2)
+			if !ok {
+				return "", "a variable whose address escapes"
+			}
+			res := "empty"
+			for _, st := range stores {
+				if c15CellOf(st.Val) == c2 {
+					continue
+				}
+				if call, isCall := st.Val.(*ssa.Call); isCall && builtinName(call) == "append" {
+					return "carried", "" // a variable keys are appended to
+				}
+				kind, why := k.sliceStart(st.Val, nil, cell, seen, depth+1)
+				switch kind {
+				case "":
+					return "", why
+				case "carried":
+					res = "carried"
+				case "zero":
+					if res == "empty" {
+						res = "zero"
+					}
+				}
+			}
+			return res, ""
+		}
+	case *ssa.Parameter:
+		return "", "a parameter of " + FuncName(k.p, t.Parent()) + " whose caller is not in view"
+	case *ssa.Call:
+		if builtinName(t) == "append" {
+			return "", "an append made elsewhere"
+		}
+		return "", "the result of " + callDescC15(t)
+	}
+	return "", "an unrecognised value"
+}
+
+// c15Encloses: outer lexically encloses inner (inner is a closure nested in outer).
+func c15Encloses(outer, inner *ssa.Function) bool {
+	for f := inner.Parent(); f != nil; f = f.Parent() {
+		if f == outer {
+			return true
+		}
+	}
+	return false
+}
+
 // c15IndexedFill: some element of the slice held in cell is assigned by index
 // (keys[i] = k), in the cell's function or in a closure capturing it.
 func c15IndexedFill(cell *ssa.Alloc) bool {
@@ -1570,6 +1719,9 @@ type c15KeyAdd struct {
 	// Zero: not a key put in by the program but the zero-value elements the
 	// slice is created with (make([]string, n) with n != 0): n copies of "".
 	Zero bool
+	// Carried: the slice starts with the contents of a key slice of another
+	// activation (a scratch buffer handed back in without being truncated).
+	Carried bool
 }
 
 type c15Del struct {
@@ -1756,11 +1908,76 @@ func (k *c15K) keyAdds(a *c15DelAnalysis, v ssa.Value, env *c15Env, site c15Site
 				continue
 			}
 		}
-		return nil, "the key slice variable is assigned something other than make/append(itself, keys...)", false
+		// anything else: where does the value come from? (a parameter bound by the
+		// caller, a phi, the slice a helper returned, …)
+		storeEnv := senv
+		if u, ok := sv.(*ssa.UnOp); ok {
+			if _, isFV := u.X.(*ssa.FreeVar); isFV {
+				storeEnv = senv.lexOf()
+			}
+		}
+		if cell == nil || st.Parent() != cell.Parent() {
+			storeEnv = nil
+		}
+		switch kind, why := k.sliceStart(st.Val, storeEnv, cell, map[ssa.Value]bool{}, 0); kind {
+		case "empty":
+			continue
+		case "carried":
+			adds = append(adds, c15KeyAdd{Site: c15Site{st, nil}, Carried: true})
+			continue
+		case "zero":
+			if cell != nil && !c15IndexedFill(cell) {
+				adds = append(adds, c15KeyAdd{Site: c15Site{st, nil}, Zero: true})
+				continue
+			}
+			return nil, "the key slice starts from a slice created with a non-zero length and filled by index: not analysed", false
+		default:
+			return nil, "the key slice variable is assigned a value whose contents are not known (" + why + ")", false
+		}
+	}
+	// a delete executed in a loop with the key variable living outside the
+	// iteration: the variable must be emptied inside the loop, else the keys of
+	// earlier iterations are handed to the delete again
+	// (only when the delete receives the slice as a whole, not one element of it per iteration)
+	if depth == 0 && cell != nil && (site.In.Parent() == cell.Parent() || c15Encloses(cell.Parent(), site.In.Parent())) {
+		delBlk := site.In.Block()
+		fn := delBlk.Parent()
+		inLoop := map[*ssa.BasicBlock]bool{}
+		fwd := map[*ssa.BasicBlock]bool{}
+		for _, s := range delBlk.Succs {
+			for b := range reachableFrom(s, nil) {
+				fwd[b] = true
+			}
+		}
+		if fwd[delBlk] {
+			for _, b := range fn.Blocks {
+				if fwd[b] && reachableFrom(b, nil)[delBlk] {
+					inLoop[b] = true
+				}
+			}
+		}
+		if len(inLoop) > 0 && (cell.Parent() != fn || !inLoop[cell.Block()]) {
+			emptied, appended := false, false
+			for _, st := range stores {
+				if call, ok := st.Val.(*ssa.Call); ok && builtinName(call) == "append" {
+					appended = true
+					continue
+				}
+				if st.Parent() != fn || !inLoop[st.Block()] {
+					continue
+				}
+				if kind, _ := k.sliceStart(st.Val, nil, nil, map[ssa.Value]bool{}, 0); kind == "empty" || kind == "zero" {
+					emptied = true
+				}
+			}
+			if appended && !emptied {
+				adds = append(adds, c15KeyAdd{Site: site, Carried: true})
+			}
+		}
 	}
 	real := 0
 	for _, a := range adds {
-		if !a.Zero {
+		if !a.Zero && !a.Carried {
 			real++
 		}
 	}
@@ -1851,6 +2068,10 @@ func (k *c15K) expiredOnly(ctx *c15Ctx, a *c15DelAnalysis, fname string, sink c1
 			pos := k.p.Pos(instrPos(at))
 			if add.Zero {
 				sink.viol(fmt.Sprintf("%s key slice created non-empty in %s", fname, FuncName(k.p, at.Parent())), pos, "the slice of keys handed to the delete is created with a non-zero LENGTH (make([]string, n) instead of make([]string, 0, n)) and only appended to: besides the collected keys the delete receives n copies of the empty string, so a live entry stored under the key \"\" that nobody touched disappears on every Cleanup")
+				continue
+			}
+			if add.Carried {
+				sink.viol(fmt.Sprintf("%s key slice carried over in %s", fname, FuncName(k.p, at.Parent())), pos, "the slice of keys handed to the delete starts with the contents of the key slice of an earlier run (a scratch buffer passed back in as it was returned, not truncated to [:0]): the keys collected by earlier runs are deleted again without their entries being re-tested, so an entry that expired once, was removed, and was Set again (live, untouched since) disappears at the next run")
 				continue
 			}
 			if kc, isConst := add.Key.(*ssa.Const); isConst && kc.Value != nil {
@@ -2008,8 +2229,8 @@ func (k *c15K) checkDeleteReset() {
 		byCb := map[*c15Env][]ssa.Instruction{}
 		var order []*c15Env
 		for _, add := range d.Adds {
-			if add.Zero {
-				continue // extra "" keys are harmless where every key is removed
+			if add.Zero || add.Carried {
+				continue // extra keys are harmless where every key is removed
 			}
 			if _, isConst := add.Key.(*ssa.Const); isConst {
 				continue
@@ -2765,7 +2986,7 @@ func (k *c15K) checkWriters() {
 	// mutation sites belong to the audited entry points
 	allowed := map[string][]string{
 		"Set":       {"Cache.Set"},
-		"Del":       {"Cache.Delete", "Cache.Cleanup", "Cache.Reset"},
+		"Del":       {"Cache.Delete", "Cache.Cleanup", "Cache.Reset", "cleaner goroutine"},
 		"GetAndDel": {"Cache.Delete"},
 	}
 	reach := map[string]map[*ssa.Function]bool{}
@@ -2774,6 +2995,15 @@ func (k *c15K) checkWriters() {
 			reach[api] = k.visited(fn)
 		}
 	}
+	// the deletes of the goroutine NewCache starts are audited by U3-periodic
+	gReach := map[*ssa.Function]bool{}
+	for _, g := range k.goSites() {
+		gReach[origin(g.Tg.Fn)] = true
+		k.x.walk(k.x.newCtx(), g.Tg.Fn, g.Env, nil, func(in ssa.Instruction, env *c15Env) {
+			gReach[origin(in.Parent())] = true
+		}, nil)
+	}
+	reach["cleaner goroutine"] = gReach
 	for _, fn := range p.FuncsOfPkg("ttlcache") {
 		allInstrs(fn, func(in ssa.Instruction) {
 			ci, isCall := in.(ssa.CallInstruction)
